@@ -41,7 +41,14 @@ def proof_items():
     from contracts import misc
     from vf.driver import ProofItem
     # add_mapspec_axis: a parameter without a MapSpec gets ':' for each of its existing dimensions, then the new axis
-    return [ProofItem(misc.axes_from_dims, gen=misc.afd_gen)]
+    from contracts import mapspec as cm
+    ms_reg = lambda: {**{c.short: c for c in cm.ALL}, **{c.name: c for c in cm.ALL}}  # noqa: E731
+    return [ProofItem(misc.axes_from_dims, gen=misc.afd_gen),
+            # ... and every array of a function that already has a MapSpec gets the new axis appended (duplicates refused)
+            ProofItem(cm.arrayspec_add_axes, gen=cm.add_axes_gen, call=cm.add_axes_call, registry=ms_reg),
+            ProofItem(cm.mapspec_add_axes, gen=cm.ms_add_axes_gen, call=cm.add_axes_call, registry=ms_reg),
+            # update_renames on a function with a MapSpec: a simultaneous renaming of its arrays
+            ProofItem(cm.mapspec_rename, gen=cm.rename_gen, registry=ms_reg)]
 
 
 def _cases(tier, rng):
